@@ -40,7 +40,7 @@ STEP_OUT = ['shapes beyond the list', 'real thread timing', 'more than 3 reads/w
 
 def step_part(labels_owner=None):
     return {'engine': 'kani', 'family': 'step', 'module': 'step', 'select': sel('step', STEP_Q, STEP_T),
-            'unlabelled_owner': labels_owner, 'jobs': 14, 'timeout_quick': 420, 'timeout_thorough': 1500, 'mem_gb': 14,
+            'unlabelled_owner': labels_owner, 'jobs': 14, 'timeout_quick': 600, 'timeout_thorough': 1500, 'mem_gb': 14,
             # thorough-only shapes: decided when CBMC finishes within the cap, otherwise listed as not decided
             'best_effort': r'step_s(2g2l2|3g2l1|1g2l4|2g1l2|1g3l1|1g2l2|3g1l1)_|_r2w2_'}
 
